@@ -41,16 +41,26 @@ const (
 type Op struct {
 	Kind int `json:"kind"`
 	Pos  int `json:"pos"`
+	// V: 0 = the call inserts a fresh value no other call of the case uses (firstNew+i); v > 0 = it inserts the
+	// value v of a small alphabet (1..dupVals), so that the sequence can hold the same value several times. A node
+	// handle is always the node Find returns for a value, i.e. the node of its FIRST occurrence.
+	V int `json:"v,omitempty"`
 }
+
+const dupVals = 2 // value alphabet of the duplicate checks: {1, 2} (1 is also the initial element)
 
 func (o Op) String() string {
 	if o.Kind < 0 || o.Kind >= nKinds {
 		return fmt.Sprintf("?%d", o.Kind)
 	}
-	if o.Kind <= opPop {
-		return opNames[o.Kind]
+	v := ""
+	if o.V != 0 {
+		v = fmt.Sprintf("=%d", o.V)
 	}
-	return fmt.Sprintf("%s@%d", opNames[o.Kind], o.Pos)
+	if o.Kind <= opPop {
+		return opNames[o.Kind] + v
+	}
+	return fmt.Sprintf("%s@%d%s", opNames[o.Kind], o.Pos, v)
 }
 
 // Case is an operation sequence applied to a list created with the single element 1.
@@ -134,6 +144,48 @@ func enumCase(s pbt.Src, thorough, dl bool) Case {
 		n = nextLen(n, op)
 		return op
 	})}
+}
+
+func insertsValue(op Op) bool {
+	switch op.Kind {
+	case opUnshift, opAppend, opInsertAfter, opInsertBefore:
+		return true
+	case opReplace:
+		return op.Pos != noPos
+	}
+	return false
+}
+
+func enumLenDup(thorough, dl bool) int {
+	if thorough {
+		return 5
+	}
+	return 4
+}
+
+// enumCaseDup: as enumCase, but every call that inserts a value draws it from {1..dupVals}.
+func enumCaseDup(s pbt.Src, thorough, dl bool) Case {
+	n := 1
+	return Case{Ops: pbt.Seq(s, 0, enumLenDup(thorough, dl), func(s pbt.Src) Op {
+		op := decode(s.Intn(alphabet(n, dl)), n, dl)
+		if insertsValue(op) || op.Kind == opReplace {
+			op.V = 1 + s.Intn(dupVals)
+		}
+		n = nextLen(n, op)
+		return op
+	})}
+}
+
+// genCaseDup: long random sequences over 1..3 values (rarely a fresh one).
+func genCaseDup(s pbt.Src, thorough, dl bool) Case {
+	c := genCase(s, thorough, dl)
+	nv := 1 + s.Intn(3)
+	for i := range c.Ops {
+		if s.Intn(8) != 0 {
+			c.Ops[i].V = 1 + s.Intn(nv)
+		}
+	}
+	return c
 }
 
 func genCase(s pbt.Src, thorough, dl bool) Case {
@@ -282,6 +334,8 @@ type run[N any] struct {
 	shrinkGrow    bool
 	maxLen        int
 	zeroedByShift bool
+	dupRef        bool // a call referred to a value that occurs more than once (by a later occurrence)
+	dupHeld       bool // the sequence held some value twice at some point
 }
 
 func (x *run[N]) label(l string) {
@@ -443,6 +497,21 @@ func (x *run[N]) step(op Op, val int, tail bool) error {
 	if p < 0 {
 		p += n
 	}
+	if op.V > 0 {
+		val = op.V
+	}
+	// the handle of a value is the node of its first occurrence
+	if usesPos(op.Kind) && op.Pos != noPos || op.Kind == opDelete {
+		for i, v := range x.model {
+			if v == x.model[p] {
+				if i != p {
+					x.dupRef = true
+				}
+				p = i
+				break
+			}
+		}
+	}
 	d := done{kind: op.Kind, val: val, tail: tail}
 	var callErr, opErr error // panic of the call, error returned by the call
 	wantErr := ""            // non-empty: the call must return an error and change nothing
@@ -589,6 +658,17 @@ func (x *run[N]) step(op Op, val int, tail bool) error {
 		if m > x.maxLen {
 			x.maxLen = m
 		}
+		if !x.dupHeld {
+		outer:
+			for i, a := range x.model {
+				for _, b := range x.model[i+1:] {
+					if a == b {
+						x.dupHeld = true
+						break outer
+					}
+				}
+			}
+		}
 	}
 	return nil
 }
@@ -625,7 +705,7 @@ func (x *run[N]) closing() error {
 			return err
 		}
 	}
-	for _, o := range []Op{{opDelete, 0}, {opAppend, 0}, {opUnshift, 0}, {opInsertAfter, 1}, {opDelete, 1}, {opPop, 0}, {opShift, 0}} {
+	for _, o := range []Op{{opDelete, 0, 0}, {opAppend, 0, 0}, {opUnshift, 0, 0}, {opInsertAfter, 1, 0}, {opDelete, 1, 0}, {opPop, 0, 0}, {opShift, 0, 0}} {
 		if err := next(o.Kind, o.Pos); err != nil {
 			return err
 		}
@@ -644,8 +724,18 @@ func execute[N any](a api[N], c Case, r *pbt.R) error {
 			return err
 		}
 	}
-	r.NonTrivialIf(x.headThenEdit, "head change, later edit further along")
-	r.NonTrivialIf(x.shrinkGrow, "shrunk to one element, grown again")
+	if hasDupValues(c) {
+		r.NonTrivialIf(x.dupHeld, "the sequence held a value twice")
+		if x.dupRef {
+			r.Label("call referred to a value by a later occurrence (acts on the first)")
+		}
+		if x.headThenEdit {
+			r.Label("head change, later edit further along")
+		}
+	} else {
+		r.NonTrivialIf(x.headThenEdit, "head change, later edit further along")
+		r.NonTrivialIf(x.shrinkGrow, "shrunk to one element, grown again")
+	}
 	if x.zeroedByShift {
 		r.Label("DList.Shift zeroed the single element")
 	}
@@ -661,6 +751,15 @@ func execute[N any](a api[N], c Case, r *pbt.R) error {
 	return x.closing()
 }
 
+func hasDupValues(c Case) bool {
+	for _, o := range c.Ops {
+		if o.V != 0 {
+			return true
+		}
+	}
+	return false
+}
+
 func propS(c Case, r *pbt.R) error { return execute(slistAPI(), c, r) }
 func propD(c Case, r *pbt.R) error { return execute(dlistAPI(), c, r) }
 
@@ -670,16 +769,16 @@ func propD(c Case, r *pbt.R) error { return execute(dlistAPI(), c, r) }
 var fixed = []Case{
 	{},
 	// head relocated by Unshift, then edits further along
-	{Ops: []Op{{opUnshift, 0}, {opAppend, 0}, {opDelete, 2}, {opInsertBefore, 1}}},
+	{Ops: []Op{{opUnshift, 0, 0}, {opAppend, 0, 0}, {opDelete, 2, 0}, {opInsertBefore, 1, 0}}},
 	// head overwritten by Shift / Delete of the first, then Delete further along
-	{Ops: []Op{{opAppend, 0}, {opAppend, 0}, {opShift, 0}, {opDelete, 1}}},
-	{Ops: []Op{{opAppend, 0}, {opAppend, 0}, {opDelete, 0}, {opDelete, 1}, {opAppend, 0}}},
+	{Ops: []Op{{opAppend, 0, 0}, {opAppend, 0, 0}, {opShift, 0, 0}, {opDelete, 1, 0}}},
+	{Ops: []Op{{opAppend, 0, 0}, {opAppend, 0, 0}, {opDelete, 0, 0}, {opDelete, 1, 0}, {opAppend, 0, 0}}},
 	// InsertBefore at the head, then InsertBefore / Delete behind it
-	{Ops: []Op{{opAppend, 0}, {opInsertBefore, 0}, {opInsertBefore, 1}, {opInsertBefore, 3}, {opDelete, 2}}},
+	{Ops: []Op{{opAppend, 0, 0}, {opInsertBefore, 0, 0}, {opInsertBefore, 1, 0}, {opInsertBefore, 3, 0}, {opDelete, 2, 0}}},
 	// shrink to one element in every way and grow again
-	{Ops: []Op{{opAppend, 0}, {opPop, 0}, {opPop, 0}, {opShift, 0}, {opDelete, 0}, {opUnshift, 0}, {opShift, 0}, {opShift, 0}, {opAppend, 0}, {opInsertAfter, 0}, {opDelete, 0}, {opDelete, 1}, {opInsertBefore, 0}}},
+	{Ops: []Op{{opAppend, 0, 0}, {opPop, 0, 0}, {opPop, 0, 0}, {opShift, 0, 0}, {opDelete, 0, 0}, {opUnshift, 0, 0}, {opShift, 0, 0}, {opShift, 0, 0}, {opAppend, 0, 0}, {opInsertAfter, 0, 0}, {opDelete, 0, 0}, {opDelete, 1, 0}, {opInsertBefore, 0, 0}}},
 	// every refusal
-	{Ops: []Op{{opInsertAfter, noPos}, {opInsertBefore, noPos}, {opReplace, noPos}, {opDelete, 0}, {opReplace, 0}, {opAppend, 0}, {opInsertAfter, noPos}, {opInsertBefore, noPos}, {opReplace, noPos}, {opReplace, 1}}},
+	{Ops: []Op{{opInsertAfter, noPos, 0}, {opInsertBefore, noPos, 0}, {opReplace, noPos, 0}, {opDelete, 0, 0}, {opReplace, 0, 0}, {opAppend, 0, 0}, {opInsertAfter, noPos, 0}, {opInsertBefore, noPos, 0}, {opReplace, noPos, 0}, {opReplace, 1, 0}}},
 }
 
 func rule(name string, dl bool) string {
@@ -712,9 +811,39 @@ func check(name string, dl bool, prop func(Case, *pbt.R) error) *pbt.Check[Case]
 	}
 }
 
+func ruleDup(name string, dl bool) string {
+	return fmt.Sprintf("%s with REPEATED values: as the check without duplicates, but inserted values and Replace's new value come from {1,2} (1 is also the initial element; random: 1..3 values, rarely a fresh one), "+
+		"so the sequence holds equal elements; a node handle is the node Find returns for a value = its first occurrence, so InsertAfter/InsertBefore/Delete act at the first occurrence and Replace changes the first occurrence only. "+
+		"Enumerated: every call sequence up to length %d (thorough %d) x both values per inserting call; random: up to 100 (300) calls. Non-trivial = the sequence held some value twice.",
+		name, enumLenDup(false, dl), enumLenDup(true, dl))
+}
+
+var fixedDup = []Case{
+	// Replace changes the first occurrence only
+	{Ops: []Op{{Kind: opAppend, V: 2}, {Kind: opAppend, V: 1}, {Kind: opAppend, V: 3}, {Kind: opReplace, Pos: 2, V: 2}, {Kind: opReplace, Pos: 0, V: 3}}},
+	// Delete / InsertAfter at the first of two equal elements
+	{Ops: []Op{{Kind: opAppend, V: 2}, {Kind: opAppend, V: 2}, {Kind: opDelete, Pos: 2}, {Kind: opInsertAfter, Pos: 1, V: 1}, {Kind: opDelete, Pos: 2}}},
+}
+
+func checkDup(name string, dl bool, prop func(Case, *pbt.R) error) *pbt.Check[Case] {
+	return &pbt.Check[Case]{
+		Name:          name,
+		Rule:          ruleDup(name, dl),
+		Enum:          func(s pbt.Src, thorough bool) Case { return enumCaseDup(s, thorough, dl) },
+		Gen:           func(s pbt.Src, thorough bool) Case { return genCaseDup(s, thorough, dl) },
+		Prop:          prop,
+		OutOfEnum:     func(c Case, thorough bool) bool { return len(c.Ops) > enumLenDup(thorough, dl) },
+		RapidQuick:    800,
+		RapidThorough: 10000,
+		Fixed:         fixedDup,
+	}
+}
+
 func TestProp(t *testing.T) {
 	pbt.Run(t, "C19",
 		check("slist", false, propS),
 		check("dlist", true, propD),
+		checkDup("slist-dup", false, propS),
+		checkDup("dlist-dup", true, propD),
 	)
 }
